@@ -34,6 +34,7 @@ REPORTS_GATE = ["r:wmonth:orig", "r:weast:orig", "x:wmonth", "y:wmonth", "r:wday
 REPORTS_SPAN = ["r:wyear:orig", "r:wpart:orig", "r:wmonth:orig", "r:wweek:orig", "r:wday:orig", "r:wweek:absent"]
 REPORTS_OBS = ["r:wyear:orig", "r:wyear:x3", "r:wyear:shuffled", "r:wyear:partnan", "r:wyear:partzero", "r:wyear:allnan", "r:wyear:absent",
                "r:wpart:orig", "r:wpart:absent", "r:wpart:partnan", "r:wpart:partzero",
+               "r:wlong:orig", "r:wlong:partnan", "r:wlong:absent",       # 600 days (daily meter with an hourly feed): a day blanked in one year is metered in the other
                "r:wdup:orig", "r:wdup:allnan", "r:wdup:absent", "r:wdup:partnan",        # duplicated timestamps: which row is kept must not depend on usage
                "r:wgap:orig", "r:wgap:allnan", "r:wgap:absent", "r:wgap:x3"]        # a weather feed with gaps: the fill must not look at usage
 
@@ -176,6 +177,8 @@ def features(h):
     fitted = {}
     lastp = None
     scribbled = None    # data whose returned prediction frame the caller has overwritten
+    refit = {}          # slot -> (baseline of the earlier fit, had the model predicted before the refit)
+    predicted = set()
     docs = []           # baseline behind every stored document
     loads = []          # (slot, baseline of the document) in load order
     for a in h:
@@ -196,10 +199,17 @@ def features(h):
             if mine and any(k > mine[-1] and d != loads[mine[-1]][1] for k, (_, d) in enumerate(loads)):
                 f.add(("used-after-another-model-was-restored", op))
         if op == "fit":
+            if a["s"] in fitted and fitted[a["s"]] != a["d"]:
+                # the same model OBJECT is fitted again on other data (after it has been used to predict, or not)
+                refit[a["s"]] = (fitted[a["s"]], a["s"] in predicted)
+                f.add(("refit-on-other-data", a["s"] in predicted))
             fitted[a["s"]] = a["d"]
             f.add(("fit", a["d"], a["ign"]))
         elif op == "predict":
             f.add(("predict", fitted.get(a["s"], "-"), a["d"]))
+            if a["s"] in refit:
+                f.add(("predict-after-the-model-object-was-refitted", refit[a["s"]][1]))
+            predicted.add(a["s"])
             if a["d"] == fitted.get(a["s"]):
                 f.add(("predict-on-the-fitted-baseline-object", a["d"]))
             if scribbled is not None and scribbled == a["d"]:
@@ -215,7 +225,8 @@ def features(h):
 
 
 # features that only a particular sequence of calls exercises: they outweigh the many (baseline x report) pair features
-RARE = {"same-data-predicted-again-after-the-returned-frame-was-overwritten", "used-after-another-model-was-restored", "predict-on-the-fitted-baseline-object"}
+RARE = {"same-data-predicted-again-after-the-returned-frame-was-overwritten", "used-after-another-model-was-restored", "predict-on-the-fitted-baseline-object",
+        "refit-on-other-data", "predict-after-the-model-object-was-refitted"}
 RARE_WEIGHT = 25
 
 
@@ -260,7 +271,7 @@ def expand(hist, scen, fam, aggs, salt, remote_restart, prof=""):
             out.append({"op": "make", "d": did, "fam": fam, "kind": "baseline", "name": parts[1], "ghi": solar, "supp": supp, "entry": r.choice(["frame", "series", "dtcol"]) if fam in ("daily", "billing") else r.choice(["frame", "dtcol"]) if fam == "hourly" else "frame"})
         elif parts[0] == "r":
             out.append({"op": "make", "d": did, "fam": fam, "kind": "reporting", "name": parts[1], "obs": parts[2], "ghi": solar, "supp": supp,
-                        "entry": (r.choice(["frame", "frame", "dtcol", "series_utc"]) if fam in ("daily", "billing") else r.choice(["frame", "frame", "dtcol"])) if fam != "caltrack" else "frame"})
+                        "entry": "series_hfeed" if (parts[1] == "wlong" and fam == "daily") else (r.choice(["frame", "frame", "dtcol", "series_utc"]) if fam in ("daily", "billing") else r.choice(["frame", "frame", "dtcol"])) if fam != "caltrack" else "frame"})
         elif parts[0] == "y":           # the sibling family's data class (shares a base class with the right one)
             other = {"daily": "billing", "billing": "daily", "hourly": "caltrack", "caltrack": "hourly"}[fam]
             out.append({"op": "make", "d": did, "fam": other, "kind": "reporting", "name": parts[1], "obs": "orig"})
